@@ -81,9 +81,9 @@ def norm(m):
     return r
 
 
-def build(m):
+def build(m, protover=None):
     t = m['type']
-    o = CLASSES[t]()
+    o = CLASSES[t]() if protover is None else CLASSES[t](protover=protover)
     if t == 'version':
         o.nVersion = m['nVersion']; o.nServices = m['nServices']; o.nTime = m['nTime']
         o.addrTo = mk_addr(m['addrTo']); o.addrFrom = mk_addr(m['addrFrom'])
@@ -240,6 +240,17 @@ def _check(case, chain):
             libx.call('stream_serialize/' + t, o.stream_serialize, g)
             if g.getvalue() != F or libx.call('serialize/' + t, o.serialize)[1] != F:
                 raise Violation('layout/%s/stream_serialize' % t, '%s: stream_serialize() / serialize() differ from to_bytes()' % t)
+            if t != 'version' and (len(F) + len(t)) % 3 == 0:
+                # the optional protocol-version argument: above 60000 every layout is the one prescribed above; for ANY value the
+                # frame a message produces parses back (under the same value) to a message that re-frames identically
+                for pv in (209, 31402, 60000, 60001, 60002, 70001, 70016):
+                    op_ = libx.call('build-protover/' + t, build, m, pv)[1]
+                    fp = libx.call('to_bytes-protover/' + t, op_.to_bytes)[1]
+                    if pv > 60000 and fp != F:
+                        raise Violation('layout/%s/protover' % t, '%s built with protover=%d frames differently from the default' % (t, pv))
+                    back = libx.call('from_bytes-protover/' + t, MsgSerializable.from_bytes, fp, protover=pv)[1]
+                    if type(back) is not CLASSES[t] or libx.call('reframe-protover/' + t, back.to_bytes)[1] != fp:
+                        raise Violation('parse/%s/reframe-protover' % t, '%s framed and parsed with protover=%d does not re-frame identically' % (t, pv))
         frames.append((m, F))
         if len(pl) and any(isinstance(v, list) and v for v in m.values()):
             nt = True
@@ -457,6 +468,12 @@ def t_big_vectors(ctx):
                     if f in small:
                         small[f] = small[f][:2]
                 ctx.run({'chain': libx.CHAINS[k % 4], 'msgs': [m, small, m]})
+    # payloads of more than 2 MiB (a large transaction alone, and inside a block): nothing caps a frame below the 32 MiB the
+    # deserialiser allows
+    if ctx.shard == 1 % ctx.nshards:
+        big_tx = {'version': 1, 'vin': [['07' * 32, 0, '61' * 2200000, 5]], 'vout': [[1, '51']], 'wit': None, 'locktime': 0}
+        ctx.run({'chain': 'mainnet', 'msgs': [{'type': 'tx', 'tx': big_tx}, {'type': 'ping', 'nonce': 1}]})
+        ctx.run({'chain': 'regtest', 'msgs': [{'type': 'block', 'block': dict(hdr(5), txs=[big_tx])}, {'type': 'verack'}]})
     if ctx.shard == 0:
         ctx.exhaustive.append('7 vector-bearing message types x {252, 253, 254, 1000} entries, each followed by a 2-entry and the same big message')
 
